@@ -9,14 +9,28 @@ META = {
     "technique": "Coq proof over arm tables regenerated from the Rust source (translator) with exact binary64 (Flocq) + "
                  "model/impl differential on operand pairs + exact rational oracle, also through real Engine programs",
     "level_text": "machine-checked proof (Coq 8.16.1 + Flocq) about an executable model tied to the source by a translator and a differential run",
-    "level_note": "Proved for all operands: every ordering operator has an arm for every int/float operand pair in both evaluators (C08_total); "
-                  "for finite operands each of < <= > >= in eval_expr_with_functions, eval_binary_op and SASE compare_values returns exactly the "
+    "level_note": "Proved, outside the recorded class C08-binop-mixed-le-ge (`<=`/`>=` on a mixed int/float pair through eval_binary_op, i.e. the "
+                  "`.pattern` matcher path; pinned by two existing tests, refuted by a vm_compute witness replayed every run): every ordering operator has an "
+                  "arm for every int/float operand pair in both evaluators (C08_total); for finite operands each of < <= > >= in "
+                  "eval_expr_with_functions (.where/.emit/.having, never in the class), eval_binary_op and SASE compare_values returns exactly the "
                   "order of the real values (C08_order, C08_order_sase), and >= is > or numerically-equal (C08_ge_iff); NaN/infinite operands are "
                   "covered by the differential run only. The (operator,type,type) dispatch is regenerated from evaluator.rs/sase.rs on every run and the "
                   "theorems are re-checked over it; the helper cmp_int_float, f64 rounding of `as f64`, trunc and partial_cmp are hand-modelled "
                   "(Flocq binary64) and tied by the differential run. .where/.emit/.having/.pattern/sequence-step programs are tested, not proved.",
     "design_ref": "DESIGN.md §7 C08",
 }
+
+CLASS_BINOP = "C08-binop-mixed-le-ge"
+
+
+def mixed(l, r):
+    return {C.tag(l), C.tag(r)} == {"i", "f"}
+
+
+def in_class(where, op, l, r):
+    """known finding: `<=` / `>=` between an Int and a Float through eval_binary_op (eval_pattern_expr / .pattern)"""
+    return where in ("binop", "pattern") and op in ("Le", "Ge") and mixed(l, r)
+
 
 KIND_TXT = {"where_lit": ".where(x OP literal)", "where_fields": ".where(x OP y)", "emit": ".emit(r: x OP y)", "having": ".having(v OP w)",
             "pattern": ".pattern(events => first(events).x OP first(events).y)", "step": "sequence step `-> B where x OP literal`"}
@@ -59,7 +73,7 @@ def engine_case(kind, op, pairs):
 def judge_engine(kind, op, pairs, ans):
     """returns list of failure strings (oracle: exact order of the operand values)"""
     if "panic" in ans or "error" in ans:
-        return ["engine run failed: %s" % (ans.get("panic") or ans.get("error"))]
+        return [(-1, "engine run failed: %s" % (ans.get("panic") or ans.get("error")))]
     want = [C.expected(op, l, r) for l, r in pairs]
     out = ans["out"]
     fails = []
@@ -71,8 +85,8 @@ def judge_engine(kind, op, pairs, ans):
         for k, w in enumerate(want):
             g = got.get(k)
             if g != {"b": w}:
-                fails.append("event %d: x=%s y=%s: emitted r=%s, mathematically %s" % (k, C.show(pairs[k][0]), C.show(pairs[k][1]),
-                                                                                     "absent" if g is None else json.dumps(g), str(w).lower()))
+                fails.append((k, "event %d: x=%s y=%s: emitted r=%s, mathematically %s" % (k, C.show(pairs[k][0]), C.show(pairs[k][1]),
+                                                                                         "absent" if g is None else json.dumps(g), str(w).lower())))
     else:
         ks = set()
         for o in out:
@@ -80,8 +94,8 @@ def judge_engine(kind, op, pairs, ans):
             ks.add(int(d["k"]["i"]))
         for k, w in enumerate(want):
             if (k in ks) != w:
-                fails.append("event %d: x=%s vs %s: %s, mathematically `x %s ..` is %s" % (
-                    k, C.show(pairs[k][0]), C.show(pairs[k][1]), "selected" if k in ks else "dropped", C.OP_TXT[op], str(w).lower()))
+                fails.append((k, "event %d: x=%s vs %s: %s, mathematically `x %s ..` is %s" % (
+                    k, C.show(pairs[k][0]), C.show(pairs[k][1]), "selected" if k in ks else "dropped", C.OP_TXT[op], str(w).lower())))
     return fails
 
 
@@ -121,7 +135,7 @@ def near_operand(rng, lit):
 # ------------------------------------------------------------------- check
 def fixed_pairs():
     """the shapes the property text and DESIGN §10 name, plus earlier minimised failures (corpus)"""
-    ps = [(C.F(31.5), C.I(30)), (C.I(31), C.I(30)), (C.I(C.P53 + 1), C.F(float(C.P53))), (C.F(float(C.P53)), C.I(C.P53 + 1)),
+    ps = [(C.I(5), C.F(4.0)), (C.I(3), C.F(4.0)), (C.F(31.5), C.I(30)), (C.I(31), C.I(30)), (C.I(C.P53 + 1), C.F(float(C.P53))), (C.F(float(C.P53)), C.I(C.P53 + 1)),
           (C.I(3), C.F(3.0)), (C.F(3.0), C.I(3)), (C.F(-0.0), C.I(0)), (C.I(0), C.F(-0.0)), (C.F(0.0), C.F(-0.0)),
           (C.I(C.P63 - 1), C.F(float(C.P63))), (C.F(float(C.P63)), C.I(C.P63 - 1)), (C.I(-C.P63), C.F(-float(C.P63))), (C.F(-float(C.P63)), C.I(-C.P63)),
           (C.I(C.P63 - 1), C.F(9223372036854774784.0)), (C.F(0.5), C.I(0)), (C.F(-0.5), C.I(0)), (C.I(1), C.F(0.5)), (C.I(-1), C.F(-0.5)),
@@ -157,18 +171,31 @@ def check(run):
 
     # ---- 1. operand pairs through the evaluator APIs
     pairs = fixed_pairs()
-    n = 1400 if quick else 30000
+    n = 1000 if quick else 30000
     for _ in range(n):
         if rng.chance(1, 25):
             pool = [C.S("a"), C.S("b"), C.B(True), C.NULL, C.I(C.gen_int(rng)), C.F(C.gen_float(rng))]
             pairs.append((rng.choice(pool), rng.choice(pool)))
         else:
             pairs.append(C.gen_num_pair(rng))
+    # small-scope exhaustive part: every boundary int against every boundary float, both operand orders
+    # (quick: a seeded sixth of it; thorough: all of it plus float/float and int/int edge pairs)
+    edge = []
+    for i in C.INT_EDGES:
+        for f in C.FLOAT_EDGES + C.FLOAT_SPECIAL:
+            edge += [(C.I(i), C.F(f)), (C.F(f), C.I(i))]
+    if quick:
+        edge = [p for p in edge if rng.chance(1, 6)]
+    else:
+        edge += [(C.F(a), C.F(b)) for a in C.FLOAT_EDGES for b in C.FLOAT_EDGES]
+        edge += [(C.I(a), C.I(b)) for a in C.INT_EDGES for b in C.INT_EDGES]
+    pairs += edge
+    run.extra["edge_pairs"] = len(edge)
     answers = harness.run_jsonl(binpath, [{"op": "binall", "l": l, "r": r} for l, r in pairs])
     t0 = C.phase(run, "impl pairs", t0)
     model = C.model_eval(run, "C08", ["cmp_case %s %s" % (C.g_value(l), C.g_value(r)) for l, r in pairs])
     t0 = C.phase(run, "model pairs", t0)
-    n_or = n_corr = 0
+    n_or = n_corr = n_known = 0
     for k, ((l, r), ans, sm) in enumerate(zip(pairs, answers, model)):
         nontrivial = None
         if C.is_finite_num(l) and C.is_finite_num(r) and ("f" in (C.tag(l), C.tag(r)) or abs(int(l["i"])) > C.P53 or abs(int(r["i"])) > C.P53):
@@ -176,7 +203,14 @@ def check(run):
         si = C.impl_cmp_str(ans)
         run.case(nontrivial, sample={"l": C.show(l), "r": C.show(r), "impl": si} if k in (0, 2) else None)
         run.count("pair:" + C.pair_bucket(l, r))
-        bad = C.judge_pair(l, r, ans)
+        bad_all = C.judge_pair(l, r, ans)
+        known_bad = [b for b in bad_all if in_class(b[0], b[1], l, r)]
+        bad = [b for b in bad_all if not in_class(b[0], b[1], l, r)]
+        if known_bad:
+            n_known += 1
+            run.count("known:" + CLASS_BINOP)
+            where, op, got, want = known_bad[0]
+            run.violation("%s: `%s %s %s` gives %s" % (C.EVALUATOR_NAME[where], C.show(l), C.OP_TXT[op], C.show(r), got), {}, classes=[CLASS_BINOP])
         if bad:
             n_or += 1
             run.count("oracle_fail")
@@ -196,6 +230,7 @@ def check(run):
                 run.tie_broken("correspondence Cmp/Model.v vs evaluator.rs/sase.rs on operands %s , %s" % (C.show(l), C.show(r)),
                                "impl  %s\nmodel %s" % (si, sm))
     run.extra["pair_oracle_failures"] = n_or
+    run.extra["pairs_in_known_class"] = n_known
     run.extra["disagreements"] = n_corr
 
     # ---- 2. real Engine programs
@@ -213,33 +248,43 @@ def check(run):
                 ecases.append((kind, op, ps))
     eans = harness.run_jsonl(binpath, [engine_case(*c) for c in ecases])
     t0 = C.phase(run, "engine programs", t0)
-    n_eng = 0
+    n_eng = n_eng_known = 0
     for (kind, op, ps), ans in zip(ecases, eans):
         run.case(("engine", kind, op, json.dumps(ps)))
         run.count("engine:" + kind)
         run.count("engine-op:" + op)
-        fails = judge_engine(kind, op, ps, ans)
+        fails_all = judge_engine(kind, op, ps, ans)
+        kn = [(k_, m) for k_, m in fails_all if k_ >= 0 and in_class("pattern" if kind == "pattern" else "-", op, ps[k_][0], ps[k_][1])]
+        fails = [(k_, m) for k_, m in fails_all if (k_, m) not in kn]
+        if kn:
+            n_eng_known += 1
+            run.count("known_engine:" + CLASS_BINOP)
+            run.violation("%s, operator %s: %s" % (KIND_TXT[kind], C.OP_TXT[op], kn[0][1]), {}, classes=[CLASS_BINOP])
         if fails:
             n_eng += 1
             run.count("oracle_fail_engine")
             if n_eng <= 4:
                 # shrink to the first failing event alone
                 small = None
-                for p in ps:
+                for k_, _ in fails:
+                    if k_ < 0:
+                        continue
+                    p = ps[k_]
                     a1 = harness.run_jsonl(binpath, [engine_case(kind, op, [p])])[0]
-                    f1 = judge_engine(kind, op, [p], a1)
+                    f1 = [x for x in judge_engine(kind, op, [p], a1) if not in_class("pattern" if kind == "pattern" else "-", op, p[0], p[1])]
                     if f1:
                         small = (p, a1, f1)
                         break
                 if small:
                     p, a1, f1 = small
-                    run.violation("%s, operator %s: %s" % (KIND_TXT[kind], C.OP_TXT[op], f1[0]),
+                    run.violation("%s, operator %s: %s" % (KIND_TXT[kind], C.OP_TXT[op], f1[0][1]),
                                   {"kind": "engine", "program_kind": kind, "op": op, "pairs": [list(p)], "vpl": engine_case(kind, op, [p])["vpl"],
                                    "implementation": a1, "contradicts": "C08_order (coq/theories/Cmp/Props_C08.v) through the Engine"})
                 else:
-                    run.violation("%s, operator %s: %s" % (KIND_TXT[kind], C.OP_TXT[op], fails[0]),
+                    run.violation("%s, operator %s: %s" % (KIND_TXT[kind], C.OP_TXT[op], fails[0][1]),
                                   {"kind": "engine", "program_kind": kind, "op": op, "pairs": [list(p) for p in ps], "implementation": ans})
     run.extra["engine_oracle_failures"] = n_eng
+    run.extra["engine_cases_in_known_class"] = n_eng_known
 
 
 def replay(run, path):
@@ -248,7 +293,7 @@ def replay(run, path):
     binpath = os.path.join(bindir, "vp-cmp")
     if r["kind"] == "pair":
         ans = harness.run_jsonl(binpath, [{"op": "binall", "l": r["l"], "r": r["r"]}])[0]
-        bad = C.judge_pair(r["l"], r["r"], ans)
+        bad = [b for b in C.judge_pair(r["l"], r["r"], ans) if not in_class(b[0], b[1], r["l"], r["r"])]
         run.case(("replay", json.dumps([r["l"], r["r"]])), {"l": r["l"], "r": r["r"], "impl": C.impl_cmp_str(ans)})
         if bad:
             where, op, got, want = bad[0]
@@ -257,7 +302,8 @@ def replay(run, path):
     else:
         ps = [tuple(p) for p in r["pairs"]]
         ans = harness.run_jsonl(binpath, [engine_case(r["program_kind"], r["op"], ps)])[0]
-        fails = judge_engine(r["program_kind"], r["op"], ps, ans)
+        fails = [m for k_, m in judge_engine(r["program_kind"], r["op"], ps, ans)
+                 if k_ < 0 or not in_class("pattern" if r["program_kind"] == "pattern" else "-", r["op"], ps[k_][0], ps[k_][1])]
         run.case(("replay", json.dumps(r["pairs"])), {"vpl": r.get("vpl"), "out": ans})
         if fails:
             run.violation("%s, operator %s: %s" % (KIND_TXT[r["program_kind"]], C.OP_TXT[r["op"]], fails[0]),
